@@ -496,3 +496,16 @@ M("C18", "older-config-table-stands-in", "async_spa.py", "        try:\n        
 M("C20", "receive-step-guards-only-the-socket-read", "driver/udp_socket.py", "                self.dispatch_recevied_data(received_bytes, remote_end)\n            except socket.timeout:\n                return\n            except OSError as e:\n                _LOGGER.debug(\"OS Exception %s during socket receive\", e)\n                return\n            except Exception:\n                _LOGGER.exception(\"Exception during receive processing\")\n                return\n            finally:\n                pass\n", "            except socket.timeout:\n                return\n            except OSError as e:\n                _LOGGER.debug(\"OS Exception %s during socket receive\", e)\n                return\n            self.dispatch_recevied_data(received_bytes, remote_end)\n", rule="R4")
 M("C20", "receive-step-guard-moved-to-the-thread-loop-twin", "driver/udp_socket.py", "            self._process_received_data()\n            # Do loop for timeout/retry", "            try:\n                self._process_received_data()\n            except Exception:\n                _LOGGER.exception(\"Exception during receive processing\")\n            # Do loop for timeout/retry", expect="silent")
 M("C20", "handler-loop-unguarded-again", "driver/udp_socket.py", "                try:\n                    handler.loop(self)\n                except Exception:\n                    _LOGGER.exception(\"Exception during handler loop\")\n", "                handler.loop(self)\n", rule="R4")
+
+# --------------------------------------------------------------------------- round 17 rules
+M("C01", "request-lock-kept-when-the-section-raises", "driver/async_udp_protocol.py", "        _LOGGER.debug(\"Release lock for task %s\", t.get_name())\n        return await super().__aexit__(exc_type, exc, tb)", "        _LOGGER.debug(\"Release lock for task %s\", t.get_name())\n        if exc_type is not None:\n            return None\n        return await super().__aexit__(exc_type, exc, tb)", rule="R13")
+M("C03", "time-items-decoded-from-the-live-block", "driver/accessor.py", "            data = f\"{int(data/256):02}:{data%256:02}\"", "            data = f\"{int(self.raw_value/256):02}:{self.raw_value%256:02}\"", rule="R3")
+M("C04", "reminders-reply-built-through-a-dict", "driver/protocol/reminders.py", "                    for reminder in reminders\n", "                    for reminder in dict(reminders).items()\n", rule="R2")
+M("C05", "request-engine-empties-the-queue-on-timeout", "driver/async_udp_protocol.py", "                # Loop for retry\n                retry_count -= 1\n", "                # Loop for retry\n                retry_count -= 1\n                while self.queue.head is not None:\n                    self.queue.pop()\n", rule="R15")
+M("C06", "active-table-asks-for-five-attempts", "config.py", "    PROTOCOL_TIMEOUT_IN_SECONDS = 4\n    PROTOCOL_RETRY_COUNT = 10\n    PAUSE_BETWEEN_RETRIES_IN_SECONDS = 2\n\n\n@dataclass\nclass _GeckoIdleConfig", "    PROTOCOL_TIMEOUT_IN_SECONDS = 4\n    PROTOCOL_RETRY_COUNT = 5\n    PAUSE_BETWEEN_RETRIES_IN_SECONDS = 2\n\n\n@dataclass\nclass _GeckoIdleConfig", rule="R9")
+M("C08", "facade-takes-back-its-own-observer-only", "automation/async_facade.py", "        for device in self.all_automation_devices:\n            device.unwatch_all()", "        for device in self.all_automation_devices:\n            device.unwatch(self._on_change)", rule="I14")
+M("C13", "fahrenheit-written-as-the-textbook-formula", "driver/accessor.py", "            temp = (float(temp) * 10.0) - 320\n        super()._set_value(int(temp))", "            temp = (float(temp) - 32.0) * 10.0\n        super()._set_value(int(temp))", rule="R14")
+M("C14", "set-value-as-wide-as-the-value", "driver/protocol/packcommand.py", "        elif len == 2:\n            data = struct.pack(\">H\", data)", "        elif len == 2:\n            data = struct.pack(\">H\", data) if data > 255 else struct.pack(\">B\", data)", rule="R14")
+M("C15", "receive-queue-keeps-the-last-32", "driver/async_peekablequeue.py", "    def __init__(self):\n        super().__init__()\n        self._marked = False\n", "    def _init(self, maxsize):\n        import collections\n        self._queue = collections.deque(maxlen=32)\n\n    def __init__(self):\n        super().__init__()\n        self._marked = False\n", rule="R12")
+M("C15", "receive-queue-on-an-unbounded-deque-twin", "driver/async_peekablequeue.py", "    def __init__(self):\n        super().__init__()\n        self._marked = False\n", "    def _init(self, maxsize):\n        import collections\n        self._queue = collections.deque()\n\n    def __init__(self):\n        super().__init__()\n        self._marked = False\n", expect="silent")
+M("C19", "session-log-rotates", "utils/shared_command.py", "        self.file_logger = logging.FileHandler(arg)", "        import logging.handlers\n        self.file_logger = logging.handlers.RotatingFileHandler(arg, maxBytes=4 << 20, backupCount=9)", rule="R13")
